@@ -21,6 +21,11 @@ def setup(rep):
                "other models/branches: N (needs convolution / DFT shift reasoning about the index bookkeeping)")
     rep.clause("zero-energy", "P", "ZHS (through .values) and ARZ: all-zero field with one value per sample; AVZ: bounded (sampled)")
     rep.clause("em-energy-scaling", "P", "ARZ on-cone with the real em_shower_RAC: the field is proportional to the shower energy")
+    rep.clause("off-cone-bookkeeping", "A", "ARZ off the cone: the statements of shower_signal that trim / zero-pad / decimate the "
+               "convolution (extracted mechanically on every run) turn a convolution of the length the code produces into exactly "
+               "N = len(times)+1 potential values, sample j being the convolution at index n_shift + j*dt_divider or zero outside it "
+               "(array laws for slice/concatenate/stride, A5); the convolution itself (scipy.signal.convolve of the profile and "
+               "the potential) and the final difference are not part of this obligation")
     rep.clause("bounded-whole-signal", "B", "all three models, real constructors and .values on random inputs: length, finiteness, "
                "+-angle, 1/R, joint shift, zero energy / zero fractions (native sampling)")
     rep.clause("bounded-cone-peak", "B", "peak amplitude is largest on the Cherenkov cone and decreases with angular distance on "
